@@ -26,6 +26,10 @@ def routing_configs(sizes=(5, 8)):
             dict(env="cvrptw", n=n, scale=False),
             dict(env="cvrptw", n=n, scale=True),
             dict(env="sdvrp", n=n),
+            dict(env="cvrp", n=n, vcap=0.5),
+            dict(env="cvrp", n=n, vcap=2.0),
+            dict(env="sdvrp", n=n, vcap=2.0),
+            dict(env="cvrptw", n=n, scale=False, vcap=0.5),
             dict(env="svrp", n=n),
             dict(env="op", n=n),
             dict(env="pctsp", n=n),
@@ -37,11 +41,11 @@ def routing_configs(sizes=(5, 8)):
         ]
         for p in MTVRP_PRESETS:
             out.append(dict(env="mtvrp", n=n, preset=p))
-        for p, sp in (("vrptw", 2.0), ("vrpbltw", 1.5), ("ovrptw", 0.5), ("vrpltw", 2.0)):
+        for p, sp in (("vrptw", 2.0), ("vrpbltw", 1.5), ("ovrptw", 0.5), ("vrpltw", 2.0), ("vrptw", 0.5), ("vrpbltw", 0.7)):
             out.append(dict(env="mtvrp", n=n, preset=p, speed=sp))
         ne = n + (n % 2)
         for rm, pm, dm, dep in (("minmax", "close", "L2", 2), ("minsum", "open", "L1", 3), ("lateness", "close", "L2", 3), ("minsum", "close", "L2", 1),
-                                ("minmax", "open", "L2", 2), ("lateness", "open", "L1", 2)):
+                                ("minmax", "open", "L2", 2), ("lateness", "open", "L1", 2), ("minsum", "close", "L1", 2), ("minmax", "close", "L1", 3)):
             out.append(dict(env="mdcpdp", n=ne, reward_mode=rm, problem_mode=pm, dist_mode=dm, depots=dep))
     return out
 
@@ -59,12 +63,19 @@ def make(cfg):
         gp = dict(num_loc=n)
         if "capacity" in cfg:
             gp["capacity"] = cfg["capacity"]
+        if "vcap" in cfg:  # non-default vehicle capacity (demands stay normalised by `capacity`)
+            gp["vehicle_capacity"] = cfg["vcap"]
         return E.CVRPEnv(generator_params=gp, **kw), R.CVRP
     if name == "cvrptw":
         gp = dict(num_loc=n, scale=cfg.get("scale", False))
+        if "vcap" in cfg:
+            gp["vehicle_capacity"] = cfg["vcap"]
         return E.CVRPTWEnv(generator_params=gp, **kw), R.CVRPTW
     if name == "sdvrp":
-        return E.SDVRPEnv(generator_params=dict(num_loc=n), **kw), R.SDVRP
+        gp = dict(num_loc=n)
+        if "vcap" in cfg:
+            gp["vehicle_capacity"] = cfg["vcap"]
+        return E.SDVRPEnv(generator_params=gp, **kw), R.SDVRP
     if name == "svrp":
         return E.SVRPEnv(generator_params=dict(num_loc=n), **kw), R.SVRP
     if name == "op":
@@ -111,7 +122,7 @@ def instances(env, cfg, family, B, seed):
             k = torch.randint(1, 17, (B, n), generator=g)
             pat = torch.tensor([16, 8, 8, 4, 4, 2, 2, 16, 8, 8])
             k[:, : n // 2] = pat.repeat(n // 20 + 1)[: n // 2]
-            td["demand"] = k.float() / 32.0
+            td["demand"] = k.float() / 32.0 * float(env.generator.vehicle_capacity)  # vcap is 0.5 / 1 / 2: stays dyadic
             grid = torch.randint(0, 9, (B, n + 1, 2), generator=g).float() / 8.0
             td["locs"], td["depot"] = grid[:, 1:], grid[:, 0]
             return td
@@ -190,7 +201,16 @@ def instances(env, cfg, family, B, seed):
             if name not in ("cvrptw", "mtvrp"):  # windows are built from the geometry there
                 td["locs"] = locs
         if name in ("cvrp", "sdvrp"):
-            td["demand"][: B // 2] = 1.0  # every customer fills the vehicle
+            td["demand"][: B // 2] = float(env.generator.vehicle_capacity)  # every customer fills the vehicle
+        if name in ("pctsp", "spctsp"):
+            # "poor" instances: all prizes together stay below the requirement, so the only way to finish is to visit every
+            # customer (then the depot opens); mixed in one batch with ordinary rows that go home early
+            h = max(1, B // 2)
+            for key in ("deterministic_prize", "stochastic_prize"):
+                pr = td[key].clone()
+                tot = pr[:h].sum(-1, keepdim=True).clamp(min=1e-6)
+                pr[:h] = pr[:h] / tot * (0.3 + 0.6 * torch.rand(h, 1, generator=g))
+                td[key] = pr
         if name == "mtsp":
             td["num_agents"][: B // 2] = 1
             td["num_agents"][B // 2 :] = n - 1
